@@ -93,11 +93,14 @@ Print Assumptions C08_trimming.
 
 (* for ANY converters, identity and name format: when every key is known to the IdP's
    converter and the SP reports the keys under pairwise different local names, the SP reads
-   exactly the asserted attributes - every value, in order, trimmed - under those names *)
+   exactly the asserted attributes - every value (the empty one too), in order, trimmed -
+   under those names.  eptid_named: a key sent under the eduPersonTargetedID OID is reported
+   under the name eduPersonTargetedID (a condition on the tables, not on the values; decided
+   for the shipped maps by C08_name_tables) *)
 Theorem C08_attributes_exact :
   forall cv sp_acs allow ident locals,
     map (fun kv => sp_name cv sp_acs (fst kv)) ident = map Some locals ->
-    Forall (fun kv => eptid_ok cv sp_acs (fst kv) (snd kv) = true) ident ->
+    Forall (fun kv => eptid_named cv sp_acs (fst kv) = true) ident ->
     NoDup locals ->
     list_to_local sp_acs allow (map (to_attr cv) ident) = combine locals (map (fun kv => plain_values (snd kv)) ident).
 Proof. exact attributes_exact. Qed.
@@ -109,7 +112,7 @@ Theorem C08_attributes_via_text :
   forall cv sp_acs allow ident locals,
     legal_attributes (map (to_attr cv) ident) = true -> forallb no_cr_attribute (map (to_attr cv) ident) = true ->
     map (fun kv => sp_name cv sp_acs (fst kv)) ident = map Some locals ->
-    Forall (fun kv => eptid_ok cv sp_acs (fst kv) (snd kv) = true) ident ->
+    Forall (fun kv => eptid_named cv sp_acs (fst kv) = true) ident ->
     NoDup locals ->
     option_map (fun t => list_to_local sp_acs allow (attrs_of_statement_xml t))
                (xml_parse (serialise (attr_statement_xml (map (to_attr cv) ident)))) =
@@ -118,17 +121,17 @@ Proof. exact attributes_via_text. Qed.
 Print Assumptions C08_attributes_via_text.
 
 (* a key the IdP's converter does not know travels under its own name (format uri): the SP
-   reports it only if its uri converter knows that name, or - with allow_unknown_attributes -
-   under its own trimmed name; otherwise it is left out *)
+   reports it only if one of its uri converters knows that name (the first that does), or -
+   with allow_unknown_attributes - under its own trimmed name; otherwise it is left out *)
 Theorem C08_unmapped_attribute :
   forall cv sp_acs allow key vals, wire_name cv key = None ->
     read_attr sp_acs allow (to_attr cv (key, vals)) =
-    match acsd_get NAME_FORMAT_URI sp_acs with
-    | Some c' => match dict_get (lower (IdpBuild.strip key)) (c_fro c') with
-                 | Some local => Some (local, plain_values vals)
-                 | None => if allow then Some (IdpBuild.strip key, plain_values vals) else None
-                 end
-    | None => if str_eqb NAME_FORMAT_URI NAME_FORMAT_UNSPECIFIED || allow then Some (IdpBuild.strip key, plain_values vals) else None
+    match convs_for NAME_FORMAT_URI sp_acs with
+    | [] => if str_eqb NAME_FORMAT_URI NAME_FORMAT_UNSPECIFIED || allow then Some (IdpBuild.strip key, plain_values vals) else None
+    | cs => match first_local cs (lower (IdpBuild.strip key)) with
+            | Some local => Some (local, plain_values vals)
+            | None => if allow then Some (IdpBuild.strip key, plain_values vals) else None
+            end
     end.
 Proof. exact deliver_unmapped. Qed.
 Print Assumptions C08_unmapped_attribute.
@@ -146,29 +149,30 @@ Definition DOC_ALIASES_SHIB : list (str * str) :=
    (L "gn", L "givenName"); (L "localityname", L "l"); (L "organizationname", L "o"); (L "organizationalunitname", L "ou");
    (L "pkcs9email", L "email"); (L "rfc822mailbox", L "mail"); (L "stateorprovincename", L "st"); (L "streetaddress", L "street");
    (L "surname", L "sn")].
-(* known finding name-lost:unspecified:* : two maps share the `unspecified` identifier; the IdP
-   converts with the first (adfs_v1x), the SP reads with the last (adfs_v20), which lacks these two *)
-Definition KNOWN_LOST_UNSPECIFIED : list str := [L "emailaddress"; L "upn"].
-
 Definition same_pairs (a b : list (str * str)) : bool :=
   forallb (fun x => existsb (fun y => str_eqb (fst x) (fst y) && str_eqb (snd x) (snd y)) b) a &&
   forallb (fun x => existsb (fun y => str_eqb (fst x) (fst y) && str_eqb (snd x) (snd y)) a) b.
 Definition same_strs (a b : list str) : bool := forallb (fun x => mem_str x b) a && forallb (fun x => mem_str x a) b.
 
-(* per name format: aliases = the documented ones, lost names = the known ones, every alias is
-   another local name of the same wire name, eduPersonTargetedID is read as eduPersonTargetedID *)
-Definition table_report (nf : str) (aliases : list (str * str)) (lost : list str) : bool :=
+(* per name format: aliases = the documented ones, NO name is lost, every alias is another
+   local name of the same wire name, eduPersonTargetedID is read as eduPersonTargetedID *)
+Definition table_report (nf : str) (aliases : list (str * str)) : bool :=
   match first_conv default_acs nf with
   | None => false
-  | Some cv => same_pairs (alias_rows cv default_acs) aliases && same_strs (lost_rows cv default_acs) lost &&
+  | Some cv => same_pairs (alias_rows cv default_acs) aliases && is_nil (lost_rows cv default_acs) &&
                aliases_consistent cv default_acs && eptid_rows_ok cv default_acs
   end.
+Definition SHIPPED_FORMATS : list str := [NAME_FORMAT_URI; NF_BASIC; NF_SHIB; NAME_FORMAT_UNSPECIFIED].
 
+(* every shipped map is a map of one of the four formats; per format (the table the IdP converts
+   with = the first map of the format, read by ALL the SP's maps of the format in order): every
+   local name is reported under itself or one of the 18 listed aliases - no exception *)
 Theorem C08_name_tables :
-  table_report NAME_FORMAT_URI DOC_ALIASES_URI [] = true /\
-  table_report NF_BASIC [] [] = true /\
-  table_report NF_SHIB DOC_ALIASES_SHIB [] = true /\
-  table_report NAME_FORMAT_UNSPECIFIED [] KNOWN_LOST_UNSPECIFIED = true.
+  forallb (fun c => mem_str (c_nf c) SHIPPED_FORMATS) default_acs = true /\
+  table_report NAME_FORMAT_URI DOC_ALIASES_URI = true /\
+  table_report NF_BASIC [] = true /\
+  table_report NF_SHIB DOC_ALIASES_SHIB = true /\
+  table_report NAME_FORMAT_UNSPECIFIED [] = true.
 Proof. vm_compute. repeat split; reflexivity. Qed.
 Print Assumptions C08_name_tables.
 
@@ -180,6 +184,37 @@ Theorem C08_table_key_reported :
     exists l, sp_name cv sp_acs key = Some l /\ (lower l = lower key \/ In (lower key, l) (alias_rows cv sp_acs)).
 Proof. exact table_key_reported. Qed.
 Print Assumptions C08_table_key_reported.
+
+(* ... and for the shipped maps, whatever name format the policy chooses: no row is lost and the
+   eduPersonTargetedID row is named so - hence EVERY key of the table the IdP converts with, in any
+   spelling, is reported under its own name or its listed alias, and satisfies eptid_named *)
+Lemma shipped_tables_complete :
+  forallb (fun c => match first_conv default_acs (c_nf c) with
+                    | Some cv => is_nil (lost_rows cv default_acs) && eptid_rows_ok cv default_acs
+                    | None => false end) default_acs = true.
+Proof. vm_compute. reflexivity. Qed.
+Print Assumptions shipped_tables_complete.
+
+Theorem C08_shipped_tables :
+  forall nf cv, first_conv default_acs nf = Some cv ->
+    lost_rows cv default_acs = [] /\ eptid_rows_ok cv default_acs = true.
+Proof.
+  intros nf cv H. destruct (first_conv_in _ _ _ H) as [Hin Hf].
+  pose proof shipped_tables_complete as T. rewrite forallb_forall in T. specialize (T cv Hin). rewrite Hf in T.
+  apply andb_true_iff in T as [T1 T2]. split; [|exact T2]. destruct (lost_rows cv default_acs); [reflexivity|discriminate].
+Qed.
+Print Assumptions C08_shipped_tables.
+
+Theorem C08_shipped_key_reported :
+  forall nf cv key, first_conv default_acs nf = Some cv -> In (lower key) (table_keys cv) ->
+    (exists l, sp_name cv default_acs key = Some l /\ (lower l = lower key \/ In (lower key, l) (alias_rows cv default_acs))) /\
+    eptid_named cv default_acs key = true.
+Proof.
+  intros nf cv key H Hin. destruct (C08_shipped_tables nf cv H) as [Hl He]. split.
+  - apply table_key_reported; [exact Hin|]. rewrite Hl. intros [].
+  - now apply eptid_rows_named.
+Qed.
+Print Assumptions C08_shipped_key_reported.
 
 (* ====================================================================== *)
 (* C08_roundtrip : the pipeline                                              *)
@@ -220,7 +255,7 @@ Theorem C08_roundtrip_exact :
     documented (s_cfg s) (built_view (sign_encrypt i m a) i a (s_keys s)) = true ->
     first_conv (i_acs i) (name_form i) = Some cv ->
     map (fun kv => sp_name cv (s_acs s) (fst kv)) (g_identity a) = map Some locals ->
-    Forall (fun kv => eptid_ok cv (s_acs s) (fst kv) (snd kv) = true) (g_identity a) ->
+    Forall (fun kv => eptid_named cv (s_acs s) (fst kv) = true) (g_identity a) ->
     NoDup locals ->
     roundtrip i m s a =
       Ok {| v_name_id := Some (g_name_id a);
@@ -235,7 +270,38 @@ Proof.
 Qed.
 Print Assumptions C08_roundtrip_exact.
 
-(* ---- a concrete setting (non-vacuity), and the record of the repaired defect ---- *)
+(* ... and with the SHIPPED attribute maps on both sides, for whatever name format the policy
+   selects: every identity over the names of the map the IdP converts with (any spelling, any
+   values - empty ones included, eduPersonTargetedID included) is read name by name under its
+   own name or its listed alias; with pairwise different reported names, exactly as asserted.
+   (Two keys with one reported name - givenName and its alias gn - are merged: C08_witness.) *)
+Theorem C08_roundtrip_shipped :
+  forall i m s a cv, setting i m s a ->
+    documented (s_cfg s) (built_view (sign_encrypt i m a) i a (s_keys s)) = true ->
+    i_acs i = default_acs -> s_acs s = default_acs ->
+    first_conv default_acs (name_form i) = Some cv ->
+    Forall (fun kv => In (lower (fst kv)) (table_keys cv)) (g_identity a) ->
+    exists locals, Forall2 (reported_as cv default_acs) (g_identity a) locals /\
+      (NoDup locals ->
+       roundtrip i m s a =
+         Ok {| v_name_id := Some (g_name_id a);
+               v_ava := combine locals (map (fun kv => plain_values (snd kv)) (g_identity a));
+               v_irt := Some (g_irt a);
+               v_issuer := i_entity_id i;
+               v_authn := read_authn (build_payload i a);
+               v_nooa := match g_session_nooa a with Some sn => sn | None => i_now i + lifetime i end;
+               v_came_from := expected_cf (s_cfg s) a |}).
+Proof.
+  intros i m s a cv H D Hi Hs Hc Hk. destruct (C08_shipped_tables _ _ Hc) as [Hl He].
+  rewrite <- Hs. apply roundtrip_table; try assumption.
+  - now rewrite <- (documented_built i m s a H).
+  - now rewrite Hi.
+  - now rewrite Hs.
+  - now rewrite Hs.
+Qed.
+Print Assumptions C08_roundtrip_shipped.
+
+(* ---- a concrete setting (non-vacuity), and the record of the repaired defects ---- *)
 Definition w_idp : idp :=
   {| i_entity_id := L "https://idp.example.org/idp"; i_acs := default_acs;
      i_name_form := {| l_any := true; l_sp := None; l_default := Some (Some NAME_FORMAT_URI) |};
@@ -317,6 +383,75 @@ Proof.
   split; [apply w_setting|]. vm_compute. repeat split; reflexivity.
 Qed.
 Print Assumptions C08_roundtrip_before_fix_refuted.
+
+(* ---- the two attribute-conversion defects repaired by proposed_fix/C08-2 and C08-3 ---- *)
+Definition NF_UNSPEC_POLICY : layered str := {| l_any := true; l_sp := None; l_default := Some (Some NAME_FORMAT_UNSPECIFIED) |}.
+Definition w_idp_unspecified : idp :=
+  {| i_entity_id := i_entity_id w_idp; i_acs := default_acs; i_name_form := NF_UNSPEC_POLICY; i_lifetime := i_lifetime w_idp;
+     i_sign_response := None; i_sign_assertion := None; i_encrypt_assertion := None; i_key := 7%N; i_now := i_now w_idp |}.
+Definition w_args_ident (ident : identity) : args :=
+  let a := w_args true false false in
+  {| g_identity := ident; g_name_id := g_name_id a; g_class_ref := g_class_ref a; g_authn_auth := g_authn_auth a;
+     g_authn_instant := None; g_irt := g_irt a; g_destination := g_destination a; g_sp := g_sp a;
+     g_sign_response := Some true; g_sign_assertion := Some false; g_encrypt_assertion := Some false; g_encrypt_cert := None;
+     g_self_contained := true; g_session_nooa := None |}.
+Definition ID_ADFS : identity := [(L "emailAddress", [L "a@b"]); (L "UPN", [L " u "]); (L "commonName", [L "cn"]); (L "group", [L "g1"; L "g2"])].
+Definition ID_EPTID : identity := [(L "eduPersonTargetedID", [L "abc"; []; L " x "; L "  "]); (L "mail", [[]])].
+
+(* after the repairs, end to end: with name_form unspecified the four names of the map the IdP converts
+   with all arrive (two maps share that identifier; the SP now asks both), and eduPersonTargetedID
+   values arrive as the trimmed strings asserted, the empty one as the empty string *)
+Example C08_witness_repaired :
+  val_eqb (show_ava (match roundtrip w_idp_unspecified {| m_enc_certs := [] |} (w_sp true false false []) (w_args_ident ID_ADFS) with
+                     | Ok v => v_ava v | Err _ => [] end))
+          (show_ava [(L "emailAddress", [RStr (L "a@b")]); (L "upn", [RStr (L "u")]); (L "commonName", [RStr (L "cn")]);
+                     (L "group", [RStr (L "g1"); RStr (L "g2")])]) = true /\
+  val_eqb (show_ava (match roundtrip w_idp {| m_enc_certs := [] |} (w_sp true false false []) (w_args_ident ID_EPTID) with
+                     | Ok v => v_ava v | Err _ => [] end))
+          (show_ava [(L "eduPersonTargetedID", [RStr (L "abc"); RStr []; RStr (L "x"); RStr []]); (L "mail", [RStr []])]) = true.
+Proof. vm_compute. split; reflexivity. Qed.
+Print Assumptions C08_witness_repaired.
+
+(* before proposed_fix/C08-2 (attribute_converter.list_to_local kept only the LAST converter of a name
+   format while from_local converts with the FIRST): an identity over the names of the map the IdP
+   converts with under name_form unspecified - no unknown key, pairwise different names - was sent
+   and silently not delivered: the statement of C08_attributes_exact / C08_name_tables failed *)
+Theorem C08_name_lost_before_fix_refuted :
+  exists cv ident locals,
+    first_conv default_acs NAME_FORMAT_UNSPECIFIED = Some cv /\
+    Forall (fun kv => In (lower (fst kv)) (table_keys cv)) ident /\
+    map (fun kv => sp_name cv default_acs (fst kv)) ident = map Some locals /\ NoDup locals /\
+    list_to_local default_acs false (map (to_attr cv) ident) = combine locals (map (fun kv => plain_values (snd kv)) ident) /\
+    list_to_local_before_fix default_acs false (map (to_attr cv) ident) = [].
+Proof.
+  exists (from_dict (L "urn:oasis:names:tc:SAML:2.0:attrname-format:unspecified", map_adfs_v1x_to, map_adfs_v1x_fro)),
+         [(L "emailAddress", [L "a@b"]); (L "UPN", [L " u "])], [L "emailAddress"; L "upn"].
+  split; [vm_compute; reflexivity|]. split; [repeat constructor; vm_compute; tauto|].
+  split; [vm_compute; reflexivity|]. split.
+  - repeat constructor; cbn [In]; [intros [E|[]]; vm_compute in E; discriminate|intros []].
+  - split; vm_compute; reflexivity.
+Qed.
+Print Assumptions C08_name_lost_before_fix_refuted.
+
+(* before proposed_fix/C08-3 (ava_from returned the NameID text only when it was non-empty): an empty
+   eduPersonTargetedID value was read back as the dictionary {NameID: {format: persistent}} *)
+Theorem C08_eptid_empty_before_fix_refuted :
+  exists cv ident locals,
+    first_conv default_acs NAME_FORMAT_URI = Some cv /\
+    map (fun kv => sp_name cv default_acs (fst kv)) ident = map Some locals /\ NoDup locals /\
+    Forall (fun kv => eptid_named cv default_acs (fst kv) = true) ident /\
+    list_to_local default_acs false (map (to_attr cv) ident) = combine locals (map (fun kv => plain_values (snd kv)) ident) /\
+    list_to_local_before_fix default_acs false (map (to_attr cv) ident) =
+      [(L "eduPersonTargetedID", [RStr (L "abc"); RNameID (Some NAMEID_FORMAT_PERSISTENT) None])].
+Proof.
+  destruct (first_conv default_acs NAME_FORMAT_URI) as [cv|] eqn:E; [|vm_compute in E; discriminate].
+  exists cv, [(L "eduPersonTargetedID", [L "abc"; []])], [L "eduPersonTargetedID"].
+  split; [reflexivity|].
+  assert (cv = match first_conv default_acs NAME_FORMAT_URI with Some c => c | None => cv end) as -> by now rewrite E.
+  split; [vm_compute; reflexivity|]. split; [repeat constructor; intros []|].
+  split; [repeat constructor|]. split; vm_compute; reflexivity.
+Qed.
+Print Assumptions C08_eptid_empty_before_fix_refuted.
 
 (* the message really is text: the attribute statement of the witness, serialised and read back *)
 Example C08_witness_text :
